@@ -262,6 +262,8 @@ class FnCheck(Check):
         ctx.objref_fields = set(getattr(self, 'objref_fields', ()))
         ctx.abstract_untracked_ifs = bool(getattr(self, 'abstract_untracked_ifs', False))
         ctx.solver_timeout_ms = getattr(self, 'feasibility_timeout_ms', ctx.solver_timeout_ms)
+        ctx.feasibility_ematch_only = bool(getattr(self, 'feasibility_ematch_only', False))
+        ctx.seq_membership_facts = bool(getattr(self, 'seq_membership_facts', False))
         ex = Executor(ctx)
         st = State(ctx)
         b = Build(ex, st)
